@@ -1074,3 +1074,70 @@ fn _update_tx_pool_for_reorg(
     // Remove transactions from the pool until its size <= size_limit.
     let _ = tx_pool.limit_size(callbacks, None);
 }
+
+#[cfg(feature = "verif-hooks")]
+impl TxPoolService {
+    /// verif-hooks: `process_tx` + `_process_tx` for a LOCAL transaction, step by step as above, with a pause
+    /// between `verify_rtx` and `submit_entry`: the result of the first phase is reported through `phase1`,
+    /// then the task waits for `gate`; `submit_entry` gets the tip hash the pre-check saw, so its re-check
+    /// against the current snapshot (`pre_resolve_tip != tip_hash`) runs when the chain moved meanwhile.
+    pub(crate) async fn verif_process_tx_paused(
+        &self,
+        tx: TransactionView,
+        phase1: std::sync::mpsc::Sender<Result<(), Reject>>,
+        gate: tokio::sync::oneshot::Receiver<()>,
+    ) -> Result<(), Reject> {
+        if let Err(e) = self.non_contextual_verify(&tx, None).await {
+            let _ = phase1.send(Err(e.clone()));
+            return Err(e);
+        }
+        if self.verify_queue_contains(&tx).await || self.orphan_contains(&tx).await {
+            let e = Reject::Duplicated(tx.hash());
+            let _ = phase1.send(Err(e.clone()));
+            return Err(e);
+        }
+        let (ret, snapshot) = self.pre_check(&tx).await;
+        let (tip_hash, rtx, status, fee, tx_size) = match ret {
+            Ok(x) => x,
+            Err(e) => {
+                let r: Result<Completed, Reject> = Err(e.clone());
+                self.after_process(tx, None, &snapshot, &r).await;
+                let _ = phase1.send(Err(e.clone()));
+                return Err(e);
+            }
+        };
+        let verify_cache = self.fetch_tx_verify_cache(&tx).await;
+        let max_cycles = self.consensus.max_block_cycles();
+        let tip_header = snapshot.tip_header();
+        let tx_env = Arc::new(status.with_env(tip_header));
+        let verified = match verify_rtx(
+            Arc::clone(&snapshot),
+            Arc::clone(&rtx),
+            tx_env,
+            &verify_cache,
+            max_cycles,
+            None,
+        )
+        .await
+        {
+            Ok(v) => v,
+            Err(e) => {
+                let r: Result<Completed, Reject> = Err(e.clone());
+                self.after_process(tx, None, &snapshot, &r).await;
+                let _ = phase1.send(Err(e.clone()));
+                return Err(e);
+            }
+        };
+        let _ = phase1.send(Ok(()));
+        // the pause
+        let _ = gate.await;
+        let entry = TxEntry::new(rtx, verified.cycles, fee, tx_size);
+        let (ret, submit_snapshot) = self.submit_entry(tip_hash, entry, status).await;
+        let ret: Result<Completed, Reject> = ret.map(|_| verified);
+        if ret.is_ok() {
+            self.notify_block_assembler(status).await;
+        }
+        self.after_process(tx, None, &submit_snapshot, &ret).await;
+        ret.map(|_| ())
+    }
+}
